@@ -28,6 +28,8 @@ def profile(r, tier, index):
         "ops_lo": 8, "ops_hi": 40 if tier == "thorough" else 28, "mode": "concurrent" if conc else "sequential", "bad_set_p": 0.02, "examine_p": 0.1,
         "quiet_p": 0.1 if conc else 0.3,
     }
+    if not conc:
+        prof["probe_p"] = r.choice((1.0, 1.0, 0.35, 0.1))
     if conc:
         # deliveries racing commands of several sessions: stream monitors + at quiescence every
         # delivered file must have been announced (disk vs the sessions' replayed views)
